@@ -61,6 +61,8 @@ func (cache *CacheLRU) GetTime(key string) (int64, error) {
 func (cache *CacheLRU) Flush() {
 	clear(cache.keys)
 	clear(cache.entries)
+	// clear() only zeroes the elements: drop them, or the heap keeps nil entries.
+	cache.entries = cache.entries[:0]
 }
 
 func (cache *CacheLRU) Len() int {
